@@ -41,6 +41,26 @@ CHECKS={
         "service_needed, job_cost_iter, least_wcet_in_interval, service_needed_by_n_jobs and the per-component variant of RBF / Aggregate / Slice (boxed, referenced, sliced, nested) are recomputed from separately built arrival and cost objects (sum, multiset union, n largest by sorting). Exploration.",
         "Trusted: the component models as black boxes (C10/C14).",
         "DESIGN.md section 4 (C16)"),
+ "C01":("property-based testing (proptest): generated task sets and generated schedules (release, execution-time, tie-break and non-preemptive-region decisions) vs. an independent slot-by-slot FP scheduler simulation",
+        "For generated task sets (jitter > period, bursts, plateaus, equal priorities, segment layouts) every Ok(R) of the four FP analyses is confronted with the canonical adversary schedule and several generated legal schedules in a simulator that knows nothing about busy windows; any job responding later than R is a violation. The bound is attained exactly in ~98 % of the Ok cases (measured label), so an analysis that became optimistic by one tick on such inputs is caught. Exploration: cannot show absence.",
+        "Trusted: the simulator's scheduling semantics (sim_uni.rs) and the admissibility of the generated release sequences (cross-validated by C10); blocking bound as the property prescribes.",
+        "DESIGN.md section 4 (C01), 3.4"),
+ "C02":("property-based testing (proptest): generated task sets, deadlines and schedules vs. an independent EDF scheduler simulation",
+        "As C01 for the four EDF analyses with arbitrary relative deadlines (also > period), generated tie-breaks among equal absolute deadlines, per-task phases and later-deadline blockers; bound attained in ~95 % of Ok cases. Exploration.",
+        "Trusted: as C01.",
+        "DESIGN.md section 4 (C02), 3.4"),
+ "C03":("property-based testing (proptest): generated task sets and schedules vs. an independent FIFO scheduler simulation",
+        "Every job of every task in the canonical dense and several generated schedules must respond within the FIFO bound; bound attained in ~100 % of Ok cases. Exploration.",
+        "Trusted: as C01.",
+        "DESIGN.md section 4 (C03), 3.4"),
+ "C06":("property-based testing (proptest): generated task sets / analyses / limits vs. brute-force evaluation of the published equations over every offset",
+        "The nine analyses are compared (value, Ok/Err and error payload) with a linear-scan evaluation of their equations over every offset A in [0,L) on tabulated RBFs, for generated task sets with jitter, bursts, deadlines of both signs relative to the analysed task, blocking bounds and limits at / just below L and the largest AF. Exploration.",
+        "Trusted: the harness' transcription of the equations from the doc comments (validated by 0 mismatches on the unchanged tree); RBFs as black boxes.",
+        "DESIGN.md section 4 (C06), 3.6"),
+ "C18":("property-based testing (proptest), witness search: constructed adversary + generated schedules in the scheduler simulation must attain the bound",
+        "For task sets with exact realisable curves the canonical adversary (and, failing that, generated schedules) must produce a job whose response time equals the bound of the preemptive-FP, non-preemptive-FP and FIFO analyses. The existential is decided constructively; a failure means no witness among the constructed and generated schedules. Exploration.",
+        "Trusted: simulator semantics; the adversary construction.",
+        "DESIGN.md section 4 (C18), 3.4"),
 }
 NA_REASON={}
 checks=[]
